@@ -239,7 +239,8 @@ class ResourceCost(IndBase):
     bounded = "1..3 tasks on the resource; cost coefficients and all integers symbolic"
 
     def extra_cases(self, tier):
-        return [{"cost": c, "res": "worker"} for c in ("const", "const0", "const1", "linear", "poly2", "default")] + [{"cost": "const", "res": "cumulative"}, {"cost": "default", "res": "cumulative"}] + [{"cost": c, "res": "worker", "assign": "select"} for c in ("const", "linear")]
+        # "const_frac" / "linear_frac": non-integer coefficients (2.5 per period; x/2 + 3/2): the value is rounded down
+        return [{"cost": c, "res": "worker"} for c in ("const", "const0", "const1", "linear", "poly2", "default", "const_frac", "linear_frac")] + [{"cost": "const", "res": "cumulative"}, {"cost": "default", "res": "cumulative"}] + [{"cost": c, "res": "worker", "assign": "select"} for c in ("const", "linear")]
 
     def cases(self, tier):
         return [c for c in super().cases(tier) if not ((c["res"] == "cumulative" or c.get("assign") == "select") and len(c["ts"]) > 2)]
@@ -256,6 +257,10 @@ class ResourceCost(IndBase):
             return ps.Worker(name="w")  # no declared cost: costs nothing
         if c == "const":
             f = ps.ConstantFunction(value=P.int("c0"))
+        elif c == "const_frac":
+            f = ps.ConstantFunction(value=2.5)
+        elif c == "linear_frac":
+            f = ps.LinearFunction(slope=0.5, intercept=1.5)
         elif c == "const0":
             f = ps.ConstantFunction(value=0)
         elif c == "const1":
@@ -298,6 +303,13 @@ class ResourceCost(IndBase):
                     tot.append(If(And(spec.sched(t), bs >= 0), T(u.cost.value) * (be - bs), 0))
             shares = z3.Sum([T(u.cost.value) for u in units]) == T(P.int("c0"))
             return lambda v: And(shares, v == z3.Sum(tot))
+        if case["cost"] == "const_frac":
+            L = z3.Sum([If(c, be - bs, 0) for t, c, bs, be in H])
+            return lambda v: And(2 * v <= 5 * L, 5 * L < 2 * v + 2)  # v = floor(2.5 * busy time)
+        if case["cost"] == "linear_frac":
+            # trapezoids of c(x) = x/2 + 3/2:  sum (c(bs) + c(be)) * len / 2 = sum (bs + be + 6) * len / 4
+            four = z3.Sum([If(c, (bs + be + 6) * (be - bs), 0) for t, c, bs, be in H])
+            return lambda v: And(4 * v <= four, four < 4 * v + 4)
         if case["cost"].startswith("const"):
             return z3.Sum([If(c, self.cost_at(P, case, bs) * (be - bs), 0) for t, c, bs, be in H])
         twice = z3.Sum([If(c, (self.cost_at(P, case, bs) + self.cost_at(P, case, be)) * (be - bs), 0) for t, c, bs, be in H])
@@ -533,7 +545,9 @@ class MathExpressionAndConstraints(Contract):
     props = ("C08", "C05")
 
     def cases(self, tier):
-        return [dict(c=c) for c in ("none", "target", "lower", "upper", "both")]
+        # expr "real": a real-valued expression (half of a sum of instants), "number": a plain non-integer number --
+        # the (integer) indicator is the value rounded down
+        return [dict(c=c) for c in ("none", "target", "lower", "upper", "both")] + [dict(c="none", expr="real"), dict(c="upper", expr="real"), dict(c="none", expr="number")]
 
     def scenario(self, ps, P, case):
         P.assume(P.int("H") >= 1)
@@ -541,7 +555,12 @@ class MathExpressionAndConstraints(Contract):
         P.assume(P.int("d1") >= 1)
         t1 = ps.FixedDurationTask(name="t1", duration=P.int("d1"))
         t2 = ps.VariableDurationTask(name="t2")
-        expr = t1._start * T(P.int("a")) + t2._end - T(P.int("b"))
+        if case.get("expr") == "real":
+            expr = (t1._start + t2._end) * 0.5
+        elif case.get("expr") == "number":
+            expr = 2.5
+        else:
+            expr = t1._start * T(P.int("a")) + t2._end - T(P.int("b"))
         ind = ps.IndicatorFromMathExpression(name="mine", expression=expr)
         c = None
         if case["c"] == "target":
@@ -559,7 +578,14 @@ class MathExpressionAndConstraints(Contract):
     def clauses(self, P, ctx, case):
         A = asserted(ctx["solver"])
         v = ctx["ind"]._indicator_variable
-        goal = [v == ctx["expr"]]
+        if case.get("expr") == "real":
+            two = [t for t in ctx["pb"].tasks.values()]
+            tot = two[0]._start + two[1]._end
+            goal = [2 * v <= tot, tot < 2 * v + 2]  # v = floor((t1.start + t2.end) / 2)
+        elif case.get("expr") == "number":
+            goal = [v == 2]
+        else:
+            goal = [v == ctx["expr"]]
         if case["c"] == "target":
             goal.append(v == T(P.int("v")))
         if case["c"] in ("lower", "both"):
